@@ -236,6 +236,7 @@ type c10Case struct {
 	Panic    string
 	PanicAt  string
 	Margin   bool
+	Second   string // what was set up before the message
 }
 
 // enableMargin sets margin parameters (random inside the envelope, epoch length 1..4) and enables both pools for margin.
@@ -246,7 +247,7 @@ func enableMargin(e *env.Env, rng *chain.Rng) {
 }
 
 func (cs c10Case) replay() map[string]interface{} {
-	return map[string]interface{}{"setup": "pools ceth and cusdc (1e24/1e24, user0), reward bucket 1e20 ceth, then the admin message below signed by the holder of all roles at height 3; then blocks with one swap and one add each",
+	return map[string]interface{}{"before": cs.Second, "setup": "pools ceth and cusdc (1e24/1e24, user0), reward bucket 1e20 ceth, then the admin message below signed by the holder of all roles at height 3; then blocks with one swap and one add each",
 		"pools_enabled_for_margin": cs.Margin, "message": cs.Kind, "fields": cs.Fields, "accepted": cs.Accepted, "blocks_run": cs.Blocks, "panic": cs.Panic, "panic_at": cs.PanicAt}
 }
 
@@ -522,12 +523,32 @@ func C10(c Ctx) *report.Report {
 			m := &clptypes.MsgUpdateLiquidityProtectionParams{Signer: e.Admin.Addr.String(), MaxRowanLiquidityThreshold: sdk.NewUint(100), MaxRowanLiquidityThresholdAsset: "cusdc", EpochLength: 10, IsActive: true}
 			mustOK(e.Tx(e.Admin, m), "activate protection")
 		}
-		if kind == 3 && rng.Intn(3) == 0 { // rates while a policy is running
-			m := &clptypes.MsgUpdatePmtpParams{Signer: e.Admin.Addr.String(), PmtpPeriodGovernanceRate: "0.1", PmtpPeriodEpochLength: 2, PmtpPeriodStartBlock: e.Height + 1, PmtpPeriodEndBlock: e.Height + 6}
+		if (kind == 3 || kind == 2) && rng.Intn(2) == 0 {
+			// rates / a new policy while a policy is scheduled or running: the message is delivered in the block before the
+			// policy's first block, in its first block, inside, in its last block or in the block after it
+			start := e.Height + 1 + int64(rng.Intn(3))
+			end := start + 2*int64(1+rng.Intn(3)) - 1
+			m := &clptypes.MsgUpdatePmtpParams{Signer: e.Admin.Addr.String(), PmtpPeriodGovernanceRate: "0.1", PmtpPeriodEpochLength: 2, PmtpPeriodStartBlock: start, PmtpPeriodEndBlock: end}
 			mustOK(e.Tx(e.Admin, m), "start policy")
-			if d, p, w := runBlocks(e, rng, 2, nil, rep, nil); p != "" {
-				rep.Violate("C10/hook-panic/setup", p, map[string]interface{}{"where": w, "blocks": d})
+			at := []int64{start - 1, start, start, start + 1, end, end + 1}[rng.Intn(6)]
+			if nb := int(at - e.Height); nb > 0 {
+				if d, p, w := runBlocks(e, rng, nb, nil, rep, nil); p != "" {
+					rep.Violate("C10/hook-panic/setup", p, map[string]interface{}{"where": w, "blocks": d})
+				}
 			}
+			cs.Second = fmt.Sprintf("a ratio-shifting policy over blocks %d..%d was scheduled first; the message below is delivered at height %d", start, end, e.Height)
+			where := "inside"
+			switch {
+			case e.Height < start:
+				where = "before-start"
+			case e.Height == start:
+				where = "first-block"
+			case e.Height == end:
+				where = "last-block"
+			case e.Height > end:
+				where = "after-end"
+			}
+			rep.Count("admin.pmtp-message-at." + where)
 		}
 		name, msg, fields := buildPolicyMsg(e, rng, kind)
 		cs.Kind, cs.Fields = name, fields
